@@ -791,8 +791,8 @@ class FuncGraph:
             if a is None or b is None:
                 return None
             return self.mk('gamma', (value.args[0], a, b), node)
-        if value.op == 'raise':
-            return value
+        if value.op == 'raise' or (value.op == 'unknown' and value.args == ('keyerror',)):
+            return value          # a path that does not return (KeyError of a dispatch table): no component to select
         if value.op == 'tuple' and depth > 0 and len(value.args[0]) == n and not any(isinstance(x, T) and x.op == 'star' for x in value.args[0]):
             return value.args[0][i]
         return None
@@ -1075,6 +1075,25 @@ class FuncGraph:
             return self.mk('unop', ('Not', self.mk('cmp', ('Eq', args[0], args[1]), e)), e)
         if lib in OPERATOR_BINOP and plain and len(args) == 2 and not kws:
             return self.mk('binop', (OPERATOR_BINOP[lib], args[0], args[1]), e)
+        if lib == 'numpy.where' and plain and len(args) == 3 and not kws and args[0].op == 'cmp' and args[0].args[0] in ('Lt', 'LtE', 'Gt', 'GtE'):
+            # np.where(x < c, c, x) / np.where(x > c, x, c) is np.maximum(x, c); np.where(x > c, c, x) / np.where(x < c, x, c) is np.minimum(x, c)
+            opn, l, r = args[0].args
+            a, b = args[1], args[2]
+            if opn in ('Gt', 'GtE'):
+                opn, l, r = ('Lt' if opn == 'Gt' else 'LtE'), r, l          # l < r
+            if a is r and b is l:
+                return self.canonical_call(self.mk('ref', (Lib('numpy.maximum'),), e), [l, r], [], e, env) or self._libcall('numpy.maximum', (l, r), e)
+            if a is l and b is r:
+                return self.canonical_call(self.mk('ref', (Lib('numpy.minimum'),), e), [l, r], [], e, env) or self._libcall('numpy.minimum', (l, r), e)
+        if lib == 'numpy.moveaxis' and plain and len(args) + len(kws) == 3:
+            kwd = dict(kws)
+            x = args[0] if args else kwd.get('a')
+            src = args[1] if len(args) > 1 else kwd.get('source')
+            dst = args[2] if len(args) > 2 else kwd.get('destination')
+            if x is not None and src is not None and dst is not None and src.op == 'const' and dst.op == 'const' and isinstance(src.args[0], int) and isinstance(dst.args[0], int) \
+                    and not isinstance(src.args[0], bool) and abs(src.args[0] - dst.args[0]) == 1 and (src.args[0] < 0) == (dst.args[0] < 0):
+                # moving an axis by one position exchanges two neighbours: np.moveaxis(x, -1, -2) is np.swapaxes(x, -1, -2)
+                return self._libcall('numpy.swapaxes', (x, src, dst), e)
         if lib == 'numpy.take' and plain and not any(k in ('out', 'mode') for k, _ in kws):
             # np.take(x, i, axis=k) is x[:, ..., i] (k >= 0) / x[..., i, :, ...] (k < 0); without an axis it flattens (left alone)
             kwd = dict(kws)
@@ -1145,7 +1164,12 @@ class FuncGraph:
             if len(shp) == 1 and shp[0].op in ('tuple', 'list'):
                 shp = list(shp[0].args[0])
             vals = [x.args[0] if x.op == 'const' else None for x in shp]
-            if recv.args[0].op == 'ref' and isinstance(recv.args[0].args[0], Lib) and recv.args[0].args[0].dotted == 'numpy.arange' and vals in ([-1, 1], [1, -1]):
+            is_arange = recv.args[0].op == 'ref' and isinstance(recv.args[0].args[0], Lib) and recv.args[0].args[0].dotted == 'numpy.arange'
+            if is_arange and len(shp) == 2 and len(recv.args[1]) == 1 and not any(k in ('start', 'step') for k, _ in recv.args[2]):
+                # np.arange(n).reshape(n, 1): the explicit length is the arange's own
+                n_ = recv.args[1][0]
+                vals = [-1 if (x is n_ or (x.op == 'const' and n_.op == 'const' and x.args[0] == n_.args[0])) else v for x, v in zip(shp, vals)]
+            if is_arange and vals in ([-1, 1], [1, -1]):
                 full = self.mk('slice', (const(None, e, self.fn), const(None, e, self.fn), const(None, e, self.fn)), e)
                 none = const(None, e, self.fn)
                 items = (full, none) if vals == [-1, 1] else (none, full)
@@ -1180,6 +1204,9 @@ class FuncGraph:
             for pol, br in ((True, f.args[1]), (False, f.args[2])):
                 self._guards.append((f.args[0], pol))
                 try:
+                    if (br.op == 'unknown' and br.args == ('keyerror',)) or (br.op == 'const' and br.args[0] is None):
+                        outs.append(self.mk('unknown', ('keyerror',), e))          # calling the missing entry of a dispatch table raises
+                        continue
                     a2 = [self._specialise(a, f.args[0], pol) for a in args]
                     k2 = [(k, self._specialise(v, f.args[0], pol)) for k, v in kws]
                     c = self.canonical_call(br, a2, k2, e, env)
@@ -1378,9 +1405,12 @@ class FuncGraph:
         import re
         if not (base.op == 'binop' and base.args[0] == 'MatMult'):
             return None
+        m, v = base.args[1], base.args[2]
+        if re.fullmatch(r'(E|:+)0:', self._index_kinds(idx)) and m.op == 'sub' and re.fullmatch(r'(E|:+)N:', self._index_kinds(m.args[1])):
+            # (v[..., None, :] @ M)[..., 0, :]  ->  einsum('...d,...dD->...D', v, M): the row vector times the matrix
+            return self._libcall('numpy.einsum', (const('...d,...dD->...D', e, self.fn), m.args[0], v), e)
         if not re.fullmatch(r'(E|:+)0', self._index_kinds(idx)):
             return None
-        m, v = base.args[1], base.args[2]
         if v.op != 'sub' or not re.fullmatch(r'(E|:+)N', self._index_kinds(v.args[1])):
             return None
         return self._libcall('numpy.einsum', (const('...dD,...D->...d', e, self.fn), m, v.args[0]), e)
